@@ -1,10 +1,13 @@
 (* Extraction of the executable models to OCaml.  ExtrOcamlBasic only: N, Z, positive, nat stay inductive. *)
 From Coq Require Import Extraction ExtrOcamlBasic.
-From FMP Require Import Base.Bytes Model.Generated Model.Remote Model.Uri.
+From FMP Require Import Base.Bytes Model.Generated Model.Msgpack Model.Frame Model.Remote Model.Uri.
 
 Extraction Language OCaml.
 Extraction "model.ml"
   bytes_eqb
+  Msgpack.enc Msgpack.enc_alt Msgpack.decode Msgpack.wf_val Msgpack.dec_int32
+  Frame.frame_val Frame.spec_bytes Frame.encode_value Frame.encode_frame Frame.next_frame Frame.run_frames
+  Frame.continues Frame.outcome_of_msg Frame.split_method Frame.has_compressor
   Remote.clean Remote.new_groups Remote.to_string Remote.parse_remote
   Remote.a_fresh Remote.a_run Remote.a_first_bad
   Uri.parse_uri Uri.uri_pred Uri.uri_string Uri.use_tls.
